@@ -111,29 +111,31 @@ Section Machine.
      [dprop m w]  far-field rows of the propagation table of diffraction.rst for routine m
                   (None = not supported)
      [cls_ptype c] the ptype an instance of class c carries (planes.rst)
-     A refused operation raises TypeError and leaves the operand as it was.
+     A refused operation raises TypeError and leaves the operand as it was (state included).
 
-     The tables say nothing about fitted tilt.  Two facts about it are implementation-defined
-     parameters of the documented machine (they are read off the code by the generator, and the
-     direct oracle of the harness accepts either value):
-     [cls_tilts c]       multiplying by class c attaches a tilt object to the fields
+     The tables say nothing about fitted tilt, and property C08 does not pin it.  Everything about
+     the tilt bit is therefore implementation-defined in the documented machine:
+     [impl]              the tilt bit after an accepted step is whatever the implementation [impl]
+                         gives the wavefront it returns (or keeps) on that step
      [fft_refuses_tilt]  propagate_fft refuses (NotImplementedError, operand kept) a wavefront
-                         that carries tilt, whatever its type
-     What the documented machine fixes about the bit: a plain Plane(ptype=p) keeps it, a class
-     sets it when [cls_tilts], a successful propagation returns fields without tilt. *)
+                         that carries tilt, whatever its type; read off the code by the generator,
+                         the direct oracle of the harness accepts either value.
+     Types, acceptance, exception class and the state kept by a refused step come from the
+     documentation alone. *)
   Definition doc_type_outcome (s : wstate) (d : option wtype) (tl : bool) : outcome :=
     match d with Some t => Yields (St t tl) | None => Raises ETypeError s end.
 
   Definition doc_machine (dmul : wtype -> ptype -> option wtype)
              (dprop : method -> wtype -> option wtype)
-             (cls_ptype : C -> ptype) (cls_tilts : C -> bool) (fft_refuses_tilt : bool) : machine :=
-    {| m_mul := fun s p => doc_type_outcome s (dmul (ty s) p) (tilted s);
-       m_class := fun c s => doc_type_outcome s (dmul (ty s) (cls_ptype c)) (tilted s || cls_tilts c);
+             (cls_ptype : C -> ptype) (impl : machine) (fft_refuses_tilt : bool) : machine :=
+    {| m_mul := fun s p => doc_type_outcome s (dmul (ty s) p) (tilted (next (m_mul impl s p)));
+       m_class := fun c s =>
+         doc_type_outcome s (dmul (ty s) (cls_ptype c)) (tilted (next (m_class impl c s)));
        m_prop := fun m s =>
          match m with
          | Fft => if tilted s && fft_refuses_tilt then Raises ENotImplementedError s
-                  else doc_type_outcome s (dprop m (ty s)) false
-         | Dft => doc_type_outcome s (dprop m (ty s)) false
+                  else doc_type_outcome s (dprop m (ty s)) (tilted (next (m_prop impl m s)))
+         | Dft => doc_type_outcome s (dprop m (ty s)) (tilted (next (m_prop impl m s)))
          end |}.
 End Machine.
 
@@ -146,7 +148,7 @@ Arguments m_prop {C} m _ _.
 Arguments step {C} M s o.
 Arguments run_program {C} M s ops.
 Arguments final_state {C} M s ops.
-Arguments doc_machine {C} dmul dprop cls_ptype cls_tilts fft_refuses_tilt.
+Arguments doc_machine {C} dmul dprop cls_ptype impl fft_refuses_tilt.
 
 (* ---- encoding of traces for the case protocol ---- *)
 Definition estate (s : wstate) : list Z := [wcode (ty s); bcode (tilted s)].
